@@ -132,3 +132,91 @@ func TestC11Linearizable(t *testing.T) {
 		vlib.Sample(map[string]any{"mode": c.Mode, "steps": summarizeSteps(c.Steps), "final_probes": len(probes)})
 	})
 }
+
+// TestC11FreeRunning: real concurrency (no bubble, no parking): every client works on its own user, so the exact answer to
+// each of its requests is known whatever the interleaving; any deviation means a reply reached the wrong request or the
+// dispatcher interleaved two requests.  Run under the race detector in thorough.
+func TestC11FreeRunning(t *testing.T) {
+	clients := vlib.Scale(16)
+	var users []seedUser
+	for i := 0; i < clients; i++ {
+		users = append(users, seedUser{Name: fmt.Sprintf("u%d", i), PW: fmt.Sprintf("pw-%d-0", i), Admin: i%2 == 0, PID: uint(1 + i%2)})
+	}
+	for _, mode := range []string{"", "local"} {
+		e, err := newAgentEnv(schedConfig(), users, mode, "", "", "")
+		if err != nil {
+			t.Fatalf("VERIF-INFRA %v", err)
+		}
+		fe1, fe2 := e.s.GetInterface(), e.s.GetInterface() // two frontends, as SASL + HTTP would have
+		errs := make(chan string, clients)
+		rounds := 150
+		if vlib.Thorough() {
+			rounds = 1500
+		}
+		for i := 0; i < clients; i++ {
+			go func(i int) {
+				st := fe1
+				if i%3 == 0 {
+					st = fe2
+				}
+				name, admin, cur := users[i].Name, users[i].Admin, users[i].PW
+				for r := 1; r <= rounds; r++ {
+					ok, adm, _, _ := st.Authenticate(name, cur)
+					if !ok || adm != admin {
+						errs <- fmt.Sprintf("client %d: Authenticate(%s, current password) answered ok=%v admin=%v, expected ok=true admin=%v (round %d, mode %q)", i, name, ok, adm, admin, r, mode)
+						return
+					}
+					if ok, _, _, _ := st.Authenticate(name, "wrong-"+cur); ok {
+						errs <- fmt.Sprintf("client %d: Authenticate(%s, wrong password) answered ok=true (round %d, mode %q)", i, name, r, mode)
+						return
+					}
+					switch r % 5 {
+					case 0:
+						next := fmt.Sprintf("pw-%d-%d", i, r)
+						if err := st.Update(name, next); err != nil {
+							errs <- fmt.Sprintf("client %d: Update failed: %v", i, err)
+							return
+						}
+						if ok, _, _, _ := st.Authenticate(name, cur); ok {
+							errs <- fmt.Sprintf("client %d: the old password of %s still works after an acknowledged change (round %d, mode %q)", i, name, r, mode)
+							return
+						}
+						cur = next
+					case 2:
+						admin = !admin
+						if err := st.SetAdmin(name, admin); err != nil {
+							errs <- fmt.Sprintf("client %d: SetAdmin failed: %v", i, err)
+							return
+						}
+					case 3:
+						l, err := st.List()
+						if err != nil || len(l) != clients {
+							errs <- fmt.Sprintf("client %d: List answered %d users (err %v), expected %d", i, len(l), err, clients)
+							return
+						}
+						if l[name].IsAdmin != admin {
+							errs <- fmt.Sprintf("client %d: List reports admin=%v for %s, expected %v", i, l[name].IsAdmin, name, admin)
+							return
+						}
+					}
+				}
+				errs <- ""
+			}(i)
+		}
+		bad := ""
+		for i := 0; i < clients; i++ {
+			if m := <-errs; m != "" && bad == "" {
+				bad = m
+			}
+		}
+		vlib.EvalN(clients * rounds * 2)
+		e.cleanup()
+		if bad != "" {
+			vlib.Violation(bad, "TestC11FreeRunning", map[string]any{"mode": mode, "clients": clients})
+			t.Fatalf("VIOLATION C11: %s", bad)
+		}
+		vlib.NT("c11free", mode, clients, rounds)
+		vlib.Class("free-running:" + mode)
+	}
+	vlib.Sample(map[string]any{"kind": "free-running", "clients": clients, "requests_per_client": "authenticate x2 per round, update / set-admin / list every 5th round"})
+}
